@@ -2,7 +2,7 @@
 ambient perturbation and prints {"<config>#<seed>": digest} as JSON on the last stdout line.
 
 usage: python -m vf.c07_child <mode> <seeds comma separated>
-mode: plain | perturb_a | perturb_b | prior_run | twice | reuse | trap | logger_none | logger_base | logger_saver | logger_peek"""
+mode: plain | perturb_a | perturb_b | prior_run | twice | reuse | trap | logger_none | logger_base | logger_saver | logger_peek | via_file"""
 import copy
 import glob
 import hashlib
@@ -306,6 +306,9 @@ def full_family():
 LOGGER = "rec"  # rec | none | base | saver
 
 
+VIA_FILE = None  # path: the configuration is written to this ONE file (rewritten for every run) and given as a path
+
+
 def run_one(cfg, seed, settings_obj=None):
     """-> (digest of everything observable incl. every log record and callback, settings mutated?,
     digest of the end state only: comparable between runs with different loggers attached)"""
@@ -318,7 +321,12 @@ def run_one(cfg, seed, settings_obj=None):
         # a fundamental shock rewinds the generator to the shock time, so anything generated ahead of it is drawn
         # again: looking far ahead is then not a read-only act even on the unchanged tree (and outside this property)
         lg.lookahead = not any(isinstance(v, dict) and v.get("class") in ("FundamentalPriceShock", "UserEffectEvent") for v in cfg.values())
-    r = SequentialRunner(settings, random.Random(seed), lg)
+    if VIA_FILE is not None:
+        with open(VIA_FILE, "w") as f:
+            json.dump(settings, f)
+        r = SequentialRunner(VIA_FILE, random.Random(seed), lg)
+    else:
+        r = SequentialRunner(settings, random.Random(seed), lg)
     r.class_register(ExtendedMarket)
     r.class_register(UserDefinedFCNAgent)
     r.class_register(UserEffectEvent)
@@ -381,6 +389,10 @@ def main():
     mode = sys.argv[1]
     if mode.startswith("logger_"):
         LOGGER = mode[len("logger_"):]
+    if mode == "via_file":
+        import tempfile
+        global VIA_FILE
+        VIA_FILE = os.path.join(tempfile.mkdtemp(prefix="vf-c07-"), "config.json")
     seeds = [int(x) for x in sys.argv[2].split(",")]
     only = sys.argv[3].split("|") if len(sys.argv) > 3 and sys.argv[3] else None
     fam = full_family()
@@ -423,6 +435,9 @@ def main():
                     out[key] = [d, m, st]
             except Exception as e:  # noqa
                 out[key] = ["EXC:%s:%s" % (type(e).__name__, str(e)[:160]), False, "EXC"]
+    if VIA_FILE is not None:
+        import shutil
+        shutil.rmtree(os.path.dirname(VIA_FILE), ignore_errors=True)
     print("C07CHILD " + json.dumps(out, sort_keys=True))
 
 
